@@ -10,8 +10,13 @@ NOT_APPLICABLE = {}
 PENDING = set()
 
 
+PURITY = (" Cross-cutting clause Rnn.P: no function analysed for this property updates one of its arguments (or a view of "
+          "one) in place; aliasing is tracked through numpy / pandas view operations and second local names only.")
+
+
 def claim(pid, text, note, technique, design_ref):
-    CLAIMED[pid] = dict(text=text, note=note + " " + TRUSTED, technique=technique, design_ref=design_ref)
+    CLAIMED[pid] = dict(text=text + ("" if pid == "C20" else PURITY), note=note + " " + TRUSTED,
+                        technique=technique + ("" if pid == "C20" else ", in-place-update / alias scan"), design_ref=design_ref)
 
 
 GVN = "abstract term builder over ast (branch-merging, loop-summarising) + rational-function normal forms (value numbering)"
